@@ -38,7 +38,7 @@ structure Bg (s s' : St) : Prop where
   registry : s'.registry = s.registry
   regResult : s'.regResult = s.regResult
   threads : s'.threads = s.threads
-  ready : ∃ app, s'.ready = s.ready ++ app ∧ ∀ i, app.count (Cb.register i) = 0
+  ready : ∃ app, s'.ready = s.ready ++ app ∧ ∀ i, app.count (Cb.register i) = 0 ∧ app.count (Cb.resume i) = 0
   done : ∀ i, (s'.jobs i).state = .done → (s.jobs i).state = .done
 
 theorem Bg.refl (s : St) : Bg s s := by
@@ -318,7 +318,7 @@ structure Tr (j : Nat) (s s' : St) : Prop where
   eff : s'.eff = s.eff
   registry : s'.registry = s.registry
   regResult : s'.regResult = s.regResult
-  ready : ∃ app, s'.ready = s.ready ++ app ∧ ∀ i, app.count (Cb.register i) = 0
+  ready : ∃ app, s'.ready = s.ready ++ app ∧ ∀ i, app.count (Cb.register i) = 0 ∧ app.count (Cb.resume i) = 0
   threads : ∃ app, s'.threads = s.threads ++ app ∧ ∀ t ∈ app, t.2 = j
   identJ : (s'.jobs j).ident = (s.jobs j).ident
   codeJ : (s'.jobs j).code = (s.jobs j).code
@@ -362,7 +362,7 @@ theorem Bg.tr {s s' : St} (h : Bg s s') (j : Nat) : Tr j s s' := by
 
 /-- callbacks that concern no other job than `j` and are no registrations -/
 def cbsOf (j : Nat) (cbs : List Cb) : Prop :=
-  ∀ i, cbs.count (Cb.register i) = 0 ∧ (i ≠ j → cbs.count (Cb.start i) = 0 ∧ cbs.count (Cb.wake i) = 0 ∧ cbs.count (Cb.resume i) = 0)
+  ∀ i, (cbs.count (Cb.register i) = 0 ∧ cbs.count (Cb.resume i) = 0) ∧ (i ≠ j → cbs.count (Cb.start i) = 0 ∧ cbs.count (Cb.wake i) = 0)
 
 theorem put_tr (s : St) (j : Nat) (jb : Job) (cbs : List Cb) (ths : List (TK × Nat))
     (hc : cbsOf j cbs) (ht : ∀ t ∈ ths, t.2 = j)
@@ -373,7 +373,7 @@ theorem put_tr (s : St) (j : Nat) (jb : Job) (cbs : List Cb) (ths : List (TK × 
     rw [view_put]
     have hcnt : ths.countP (fun t => t.2 == i) = 0 := by
       rw [List.countP_eq_zero]; intro t htm; have := ht t htm; simp; omega
-    simp [hi, (hc i).2 hi, hcnt, view, cW]
+    simp [hi, (hc i).2 hi, (hc i).1.2, hcnt, view, cW]
   · intro i hi; simp [jobs_put, hi]
   · rfl
   · rfl
@@ -660,7 +660,7 @@ theorem bg_misc (s s' : St) (app : List Cb) (hj : s'.jobs = s.jobs) (hr : s'.rea
     obtain ⟨c1, c2, c3, -⟩ := count_nonControl app happ i
     simp [view, cStart, cRes, cW, cWake, cSleep, cThr, hj, hr, ht, List.count_append, c1, c2, c3]
   all_goals first | assumption | skip
-  · exact ⟨app, hr, fun i => (count_nonControl app happ i).2.2.2⟩
+  · exact ⟨app, hr, fun i => ⟨(count_nonControl app happ i).2.2.2, (count_nonControl app happ i).2.2.1⟩⟩
   · intro i; simp [hj]
 
 theorem pre_resume (s : St) (ad : Bool) (j : Nat) (hj : LocV (viewP (.resume j) s j) ad) :
